@@ -171,7 +171,7 @@ Proof.
 Qed.
 
 Lemma resolve_lin d n l fuel : Lin d n l -> (fuel > List.length l)%nat ->
-  resolve fuel d n = Ok n (fold_spec d l).
+  resolve false fuel d n = Ok n (fold_spec d l).
 Proof. intros H Hf. exact (proj1 (load_lin d) n l H fuel Hf). Qed.
 
 (* the functional linearisation agrees with the relation *)
@@ -278,8 +278,9 @@ Lemma merge_parents_mono (ld ld' : str -> res) :
                  merge_parents ld' ps acc = merge_parents ld ps acc.
 Proof.
   intros H. induction ps as [|p ps IH]; intros acc; cbn; [reflexivity|].
-  destruct (ld p) as [n c| m |] eqn:E; intros Hne.
+  destruct (ld p) as [n c| m | m |] eqn:E; intros Hne.
   - rewrite (H p) by (rewrite E; discriminate). rewrite E. now apply IH.
+  - rewrite (H p) by (rewrite E; discriminate). now rewrite E.
   - rewrite (H p) by (rewrite E; discriminate). now rewrite E.
   - congruence.
 Qed.
@@ -357,8 +358,9 @@ Lemma merge_parents_err (ld : str -> res) ps : forall acc e,
   merge_parents ld ps acc = inl e -> exists p, In p ps /\ ld p = e /\ (forall n c, e <> Ok n c).
 Proof.
   induction ps as [|p ps IH]; intros acc e; cbn; [discriminate|].
-  destruct (ld p) as [n c| m |] eqn:E.
+  destruct (ld p) as [n c| m | m |] eqn:E.
   - intros H. destruct (IH _ _ H) as [q [Hq Hr]]. exists q. split; [now right | exact Hr].
+  - intros H; inversion H; subst. exists p. repeat split; auto; discriminate.
   - intros H; inversion H; subst. exists p. repeat split; auto; discriminate.
   - intros H; inversion H; subst. exists p. repeat split; auto; discriminate.
 Qed.
@@ -381,7 +383,7 @@ Lemma merge_parents_ok (ld : str -> res) ps : forall acc acc',
   merge_parents ld ps acc = inr acc' -> forall p, In p ps -> exists n c, ld p = Ok n c.
 Proof.
   induction ps as [|p ps IH]; intros acc acc'; cbn; [intros _ q []|].
-  destruct (ld p) as [n c| m |] eqn:E; try discriminate.
+  destruct (ld p) as [n c| m | m |] eqn:E; try discriminate.
   intros H q [<- | Hq]; [eauto | eapply IH; eauto].
 Qed.
 
@@ -445,6 +447,16 @@ Qed.
 Lemma Lin_lookup d n l : Lin d n l -> lookup d n <> None.
 Proof. intros H; inversion H; subst. congruence. Qed.
 
+(* the loader before the fix never reports a cycle *)
+Lemma load_no_cycle d : forall fuel n m, load fuel d n <> ErrCycle m.
+Proof.
+  induction fuel as [|f IH]; intros n m; cbn [load]; [discriminate|].
+  destruct (lookup d n) as [r|]; [|discriminate].
+  destruct (inherits r) as [|p ps]; [discriminate|].
+  destruct (merge_parents (load f d) (p :: ps) empty_cfg) as [e|acc] eqn:Em; [|discriminate].
+  intros ->. apply merge_parents_err in Em as [q [_ [Hq _]]]. exact (IH _ _ Hq).
+Qed.
+
 (* a cyclic request never produces a configuration *)
 Lemma cyclic_never_ok d n : Anc d n n -> forall fuel n' c, load fuel d n <> Ok n' c.
 Proof.
@@ -457,11 +469,12 @@ Lemma cyclic_closed_loops d n :
   Anc d n n -> (forall m, Anc d n m -> lookup d m <> None) ->
   forall fuel, load fuel d n = OutOfFuel.
 Proof.
-  intros HA Hclosed fuel. destruct (load fuel d n) as [n' c | m |] eqn:E.
+  intros HA Hclosed fuel. destruct (load fuel d n) as [n' c | m | m |] eqn:E.
   - exfalso. exact (cyclic_never_ok d n HA fuel n' c E).
   - exfalso. destruct (load_err_sound _ _ _ _ E) as [Hn [-> | Hr]].
     + exact (Hclosed n HA Hn).
     + exact (Hclosed m Hr Hn).
+  - exfalso. exact (load_no_cycle _ _ _ _ E).
   - reflexivity.
 Qed.
 
@@ -473,8 +486,9 @@ Lemma merge_parents_fuel (ld : str -> res) ps : forall acc,
   (forall p, In p ps -> ld p <> OutOfFuel) -> merge_parents ld ps acc <> inl OutOfFuel.
 Proof.
   induction ps as [|p ps IH]; intros acc H; cbn; [discriminate|].
-  destruct (ld p) as [n c| m |] eqn:E.
+  destruct (ld p) as [n c| m | m |] eqn:E.
   - apply IH. intros q Hq. apply H. now right.
+  - discriminate.
   - discriminate.
   - exfalso. apply (H p); auto. now left.
 Qed.
@@ -498,11 +512,12 @@ Qed.
 Lemma missing_errors d rk n m fuel : ranked d rk -> (m = n \/ Anc d n m) -> lookup d m = None ->
   (fuel > rk n)%nat -> exists m', load fuel d n = ErrMissing m' /\ lookup d m' = None.
 Proof.
-  intros HR Hm Hn Hf. destruct (load fuel d n) as [n' c | m' |] eqn:E.
+  intros HR Hm Hn Hf. destruct (load fuel d n) as [n' c | m' | m' |] eqn:E.
   - exfalso. destruct (load_ok_lin _ _ _ _ _ E) as [l HL]. destruct Hm as [-> | HA].
     + exact (Lin_lookup _ _ _ HL Hn).
     + exact (Lin_anc_exists _ _ _ _ HL HA Hn).
   - exists m'. split; [reflexivity|]. exact (proj1 (load_err_sound _ _ _ _ E)).
+  - exfalso. exact (load_no_cycle _ _ _ _ E).
   - exfalso. exact (ranked_terminates d rk HR fuel n Hf E).
 Qed.
 
@@ -531,4 +546,220 @@ Proof.
   { induction fuel as [|f [IHa IHb]]; [split; reflexivity|].
     split; cbn [load lookup db_two]; cbn; [now rewrite IHb | now rewrite IHa]. }
   intros fuel. apply H.
+Qed.
+
+(* ====================================================================== *)
+(* the loader with the visiting chain (after the fix)                      *)
+(* ====================================================================== *)
+
+Lemma visited_true vis n : visited vis n = true -> In n vis.
+Proof.
+  unfold visited. intros H. apply existsb_exists in H as [x [Hx E]].
+  apply str_eqb_eq in E. now subst.
+Qed.
+
+Lemma visited_false vis n : ~ In n vis -> visited vis n = false.
+Proof.
+  intros H. destruct (visited vis n) eqn:E; [|reflexivity]. now apply visited_true in E.
+Qed.
+
+Lemma Lin_members d :
+  (forall n l, Lin d n l -> forall x, In x l -> x = n \/ Anc d n x) /\
+  (forall ps l, Lins d ps l -> forall x, In x l -> exists p, In p ps /\ (x = p \/ Anc d p x)).
+Proof.
+  apply Lin_Lins_ind.
+  - intros n r l Hlk HL IH x Hx. apply in_app_or in Hx as [Hx | [<- | []]]; [|now left].
+    right. destruct (IH x Hx) as [p [Hp [-> | HA]]].
+    + now apply Anc_step with r.
+    + apply Anc_trans with p; [now apply Anc_step with r | exact HA].
+  - intros x [].
+  - intros p ps l1 l2 H1 IH1 H2 IH2 x Hx. apply in_app_or in Hx as [Hx | Hx].
+    + exists p. split; [now left | now apply IH1].
+    + destruct (IH2 x Hx) as [q [Hq Hr]]. exists q. split; [now right | exact Hr].
+Qed.
+
+Lemma loadv_lin d :
+  (forall n l, Lin d n l -> forall fuel vis, (fuel > List.length l)%nat ->
+      (forall v, In v vis -> ~ In v l) ->
+      loadv fuel d vis n = Ok n (fold_spec d l)) /\
+  (forall ps l, Lins d ps l -> forall fuel vis, (fuel > List.length l)%nat ->
+      (forall v, In v vis -> ~ In v l) -> forall acc,
+      merge_parents (loadv fuel d vis) ps acc = inr (fold_left merge (map (raw_cfg d) l) acc)).
+Proof.
+  apply Lin_Lins_ind.
+  - intros n r l Hlk HL IH fuel vis Hf Hvis.
+    destruct fuel as [|f]; [inversion Hf|]. cbn [loadv].
+    rewrite visited_false by (intros Hin; apply (Hvis n Hin); apply in_or_app; right; now left).
+    rewrite Hlk. rewrite app_length in Hf; cbn in Hf.
+    assert (Hspec : fold_spec d (l ++ [n]) = merge (fold_left merge (map (raw_cfg d) l) empty_cfg) (fields r)).
+    { unfold fold_spec. rewrite map_app, fold_left_app. cbn [map fold_left].
+      replace (raw_cfg d n) with (fields r) by (unfold raw_cfg; now rewrite Hlk). reflexivity. }
+    destruct (inherits r) as [|p ps] eqn:Ei.
+    + inversion HL; subst. cbn [map fold_left] in Hspec. rewrite Hspec. now rewrite merge_empty_l.
+    + rewrite (IH f (n :: vis) ltac:(lia)); [now rewrite Hspec|].
+      intros v [<- | Hv] Hin.
+      * (* n in the linearisation of its own parents: a cycle *)
+        assert (HLn : Lin d n (l ++ [n])) by (apply Lin_node with r; [exact Hlk | now rewrite Ei]).
+        apply (Lin_acyclic _ _ _ HLn).
+        destruct (proj2 (Lin_members d) _ _ HL n Hin) as [q [Hq [-> | HA]]].
+        -- apply Anc_step with r; [exact Hlk | now rewrite Ei].
+        -- apply Anc_trans with q; [apply Anc_step with r; [exact Hlk | now rewrite Ei] | exact HA].
+      * apply (Hvis v Hv). apply in_or_app. now left.
+  - intros fuel vis _ _ acc. reflexivity.
+  - intros p ps l1 l2 H1 IH1 H2 IH2 fuel vis Hf Hvis acc.
+    rewrite app_length in Hf. cbn [merge_parents].
+    rewrite (IH1 fuel vis ltac:(lia)) by (intros v Hv Hin; apply (Hvis v Hv); apply in_or_app; now left).
+    rewrite (IH2 fuel vis ltac:(lia)) by (intros v Hv Hin; apply (Hvis v Hv); apply in_or_app; now right).
+    rewrite map_app, fold_left_app.
+    now rewrite (merge_fold_spec d l1 acc (Lin_nonempty _ _ _ H1)).
+Qed.
+
+Lemma resolve_fixed_lin d n l fuel : Lin d n l -> (fuel > List.length l)%nat ->
+  resolve true fuel d n = Ok n (fold_spec d l).
+Proof. intros H Hf. apply (proj1 (loadv_lin d) n l H fuel [] Hf). intros v []. Qed.
+
+Lemma loadv_S d : forall fuel vis n, loadv fuel d vis n <> OutOfFuel -> loadv (S fuel) d vis n = loadv fuel d vis n.
+Proof.
+  induction fuel as [|f IH]; intros vis n; [cbn; congruence|].
+  remember (S f) as sf. cbn [loadv]. subst sf. cbn [loadv].
+  destruct (visited vis n); [reflexivity|].
+  destruct (lookup d n) as [r|]; [|reflexivity].
+  destruct (inherits r) as [|p ps]; [reflexivity|].
+  intros Hne.
+  rewrite (merge_parents_mono (loadv f d (n :: vis)) (loadv (S f) d (n :: vis)) (IH (n :: vis))).
+  - reflexivity.
+  - intros E. rewrite E in Hne. congruence.
+Qed.
+
+Lemma loadv_mono d vis n fuel fuel' : (fuel <= fuel')%nat -> loadv fuel d vis n <> OutOfFuel ->
+  loadv fuel' d vis n = loadv fuel d vis n.
+Proof.
+  induction 1 as [|m Hle IH]; intros Hne; [reflexivity|].
+  rewrite loadv_S; [now apply IH|]. rewrite IH; auto.
+Qed.
+
+Lemma loadv_ext d d' : (forall n, lookup d n = lookup d' n) ->
+  forall fuel vis n, loadv fuel d vis n = loadv fuel d' vis n.
+Proof.
+  intros H. induction fuel as [|f IH]; intros vis n; cbn [loadv]; [reflexivity|].
+  destruct (visited vis n); [reflexivity|].
+  rewrite H. destruct (lookup d' n) as [r|]; [|reflexivity].
+  destruct (inherits r) as [|p ps]; [reflexivity|].
+  now rewrite (merge_parents_ext _ _ (IH (n :: vis))).
+Qed.
+
+(* errors of the fixed loader: vis is a chain of descriptions that all reach n *)
+Lemma loadv_err_sound d : forall fuel vis n, (forall v, In v vis -> Anc d v n) ->
+  (forall m, loadv fuel d vis n = ErrMissing m -> lookup d m = None /\ (m = n \/ Anc d n m)) /\
+  (forall m, loadv fuel d vis n = ErrCycle m -> Anc d m m /\ (m = n \/ Anc d n m)).
+Proof.
+  induction fuel as [|f IH]; intros vis n Hvis; cbn [loadv]; [split; discriminate|].
+  destruct (visited vis n) eqn:Ev.
+  { split; [discriminate|]. intros m E; inversion E; subst. split; [|now left].
+    apply Hvis. now apply visited_true. }
+  destruct (lookup d n) as [r|] eqn:Hlk; [|split; [intros m E; inversion E; subst; auto | discriminate]].
+  destruct (inherits r) as [|p ps] eqn:Ei; [split; discriminate|].
+  assert (Hchain : forall q, In q (p :: ps) -> forall v, In v (n :: vis) -> Anc d v q).
+  { intros q Hq v [<- | Hv].
+    - apply Anc_step with r; [exact Hlk | now rewrite Ei].
+    - apply Anc_trans with n; [now apply Hvis | apply Anc_step with r; [exact Hlk | now rewrite Ei]]. }
+  destruct (merge_parents (loadv f d (n :: vis)) (p :: ps) empty_cfg) as [e|acc] eqn:Em; [|split; discriminate].
+  apply merge_parents_err in Em as [q [Hq [Hl _]]].
+  assert (Hs : Anc d n q) by (apply Anc_step with r; [exact Hlk | now rewrite Ei]).
+  destruct (IH (n :: vis) q (Hchain q Hq)) as [IHm IHc].
+  split; intros m ->.
+  - destruct (IHm m Hl) as [Hn Hr]. split; [exact Hn|]. right.
+    destruct Hr as [-> | Hr]; [exact Hs | now apply Anc_trans with q].
+  - destruct (IHc m Hl) as [Hn Hr]. split; [exact Hn|]. right.
+    destruct Hr as [-> | Hr]; [exact Hs | now apply Anc_trans with q].
+Qed.
+
+Lemma loadv_ok_lin d : forall fuel vis n n' c, loadv fuel d vis n = Ok n' c -> exists l, Lin d n l.
+Proof.
+  induction fuel as [|f IH]; intros vis n n' c; cbn [loadv]; [discriminate|].
+  destruct (visited vis n); [discriminate|].
+  destruct (lookup d n) as [r|] eqn:Hlk; [|discriminate].
+  assert (HL : (forall p, In p (inherits r) -> exists l, Lin d p l) -> exists l, Lin d n l).
+  { intros Hp. assert (exists lp, Lins d (inherits r) lp) as [lp Hlp].
+    { clear Hlk. induction (inherits r) as [|p ps IHp]; [exists []; constructor|].
+      destruct (Hp p (or_introl eq_refl)) as [l1 H1].
+      destruct IHp as [l2 H2]; [intros q Hq; apply Hp; now right|].
+      exists (l1 ++ l2). now constructor. }
+    exists (lp ++ [n]). now apply Lin_node with r. }
+  destruct (inherits r) as [|p ps] eqn:Ei.
+  - intros _. apply HL. intros q [].
+  - destruct (merge_parents (loadv f d (n :: vis)) (p :: ps) empty_cfg) as [e|acc] eqn:Em.
+    + intros ->. apply merge_parents_err in Em as [q [_ [_ Hno]]]. exfalso. eapply Hno; reflexivity.
+    + intros _. apply HL. intros q Hq.
+      destruct (merge_parents_ok _ _ _ _ Em q Hq) as [n1 [c1 E1]]. eapply IH; eauto.
+Qed.
+
+Lemma loadv_ok_name d : forall fuel vis n n' c, loadv fuel d vis n = Ok n' c -> n' = n.
+Proof.
+  destruct fuel as [|f]; intros vis n n' c; cbn [loadv]; [discriminate|].
+  destruct (visited vis n); [discriminate|].
+  destruct (lookup d n) as [r|]; [|discriminate].
+  destruct (inherits r) as [|p ps]; [now intros E; inversion E|].
+  destruct (merge_parents _ _ _) as [e|acc] eqn:Em.
+  - intros ->. apply merge_parents_err in Em as [q [_ [_ Hno]]]. exfalso. eapply Hno; reflexivity.
+  - now intros E; inversion E.
+Qed.
+
+Lemma lookup_in d n r : lookup d n = Some r -> In n (map fst d).
+Proof.
+  induction d as [|[m r'] d IH]; cbn; [discriminate|].
+  destruct (str_eqb n m) eqn:E; [apply str_eqb_eq in E; now left | intros H; right; now apply IH].
+Qed.
+
+(* the fixed loader always ends: the chain cannot be longer than the description set *)
+Lemma loadv_terminates d : forall fuel vis n,
+  NoDup vis -> incl vis (map fst d) -> (fuel + List.length vis > List.length d)%nat ->
+  loadv fuel d vis n <> OutOfFuel.
+Proof.
+  induction fuel as [|f IH]; intros vis n ND Hincl Hf.
+  - exfalso. pose proof (NoDup_incl_length ND Hincl) as Hlen. rewrite map_length in Hlen. cbn in Hf. lia.
+  - cbn [loadv]. destruct (visited vis n) eqn:Ev; [discriminate|].
+    destruct (lookup d n) as [r|] eqn:Hlk; [|discriminate].
+    destruct (inherits r) as [|p ps] eqn:Ei; [discriminate|].
+    destruct (merge_parents (loadv f d (n :: vis)) (p :: ps) empty_cfg) as [e|acc] eqn:Em; [|discriminate].
+    intros ->. revert Em. apply merge_parents_fuel. intros q Hq. apply IH.
+    + constructor; [|exact ND]. intros Hin. assert (visited vis n = true); [|congruence].
+      unfold visited. apply existsb_exists. exists n. split; [exact Hin | apply str_eqb_refl].
+    + intros x [<- | Hx]; [now apply lookup_in with r | now apply Hincl].
+    + cbn [List.length]. lia.
+Qed.
+
+Lemma resolve_fixed_terminates d fuel n : (fuel > List.length d)%nat -> resolve true fuel d n <> OutOfFuel.
+Proof.
+  intros Hf. apply loadv_terminates; [constructor | intros x [] | cbn; lia].
+Qed.
+
+(* cyclic or incomplete requests end with an error *)
+Lemma resolve_fixed_cyclic_error d n fuel : Anc d n n -> (fuel > List.length d)%nat ->
+  (exists m, resolve true fuel d n = ErrCycle m /\ Anc d m m) \/
+  (exists m, resolve true fuel d n = ErrMissing m /\ lookup d m = None).
+Proof.
+  intros HA Hf. pose proof (resolve_fixed_terminates d fuel n Hf) as Ht. unfold resolve in *.
+  destruct (loadv_err_sound d fuel [] n ltac:(intros v [])) as [Hm Hc].
+  destruct (loadv fuel d [] n) as [n' c | m | m |] eqn:E.
+  - exfalso. destruct (loadv_ok_lin _ _ _ _ _ _ E) as [l HL]. exact (Lin_acyclic _ _ _ HL HA).
+  - right. exists m. split; [reflexivity | exact (proj1 (Hm m eq_refl))].
+  - left. exists m. split; [reflexivity | exact (proj1 (Hc m eq_refl))].
+  - congruence.
+Qed.
+
+Lemma resolve_fixed_missing_error d n m fuel : (m = n \/ Anc d n m) -> lookup d m = None ->
+  (fuel > List.length d)%nat ->
+  exists e, resolve true fuel d n = e /\ ((exists m', e = ErrMissing m' /\ lookup d m' = None) \/
+                                         (exists m', e = ErrCycle m' /\ Anc d m' m')).
+Proof.
+  intros Hm Hn Hf. pose proof (resolve_fixed_terminates d fuel n Hf) as Ht. unfold resolve in *.
+  destruct (loadv_err_sound d fuel [] n ltac:(intros v [])) as [Hmm Hc].
+  destruct (loadv fuel d [] n) as [n' c | m' | m' |] eqn:E.
+  - exfalso. destruct (loadv_ok_lin _ _ _ _ _ _ E) as [l HL]. destruct Hm as [-> | HA].
+    + exact (Lin_lookup _ _ _ HL Hn).
+    + exact (Lin_anc_exists _ _ _ _ HL HA Hn).
+  - eexists. split; [reflexivity|]. left. exists m'. split; [reflexivity | exact (proj1 (Hmm m' eq_refl))].
+  - eexists. split; [reflexivity|]. right. exists m'. split; [reflexivity | exact (proj1 (Hc m' eq_refl))].
+  - congruence.
 Qed.
